@@ -96,11 +96,11 @@ func buildMsg(c Case, class string) (built, bool) {
 		if !plain(8*N + 100000) {
 			return b, false
 		}
-	case "bomb", "okcomp", "fatwire":
+	case "bomb", "bomb1", "okcomp", "fatwire":
 		if c.Encoding == "" {
 			return b, false
 		}
-		size := N + 1
+		size := N + 1 // bomb1: decompresses to exactly one byte more than the limit
 		if class == "bomb" {
 			size = 4*N + 50000
 		}
@@ -117,7 +117,7 @@ func buildMsg(c Case, class string) (built, bool) {
 		b.flags = refwire.FlagCompressed
 		b.wire, b.decomp = len(b.payload), len(raw)
 		switch class {
-		case "bomb":
+		case "bomb", "bomb1":
 			if b.wire > N {
 				return b, false
 			}
@@ -442,13 +442,13 @@ func gen(t *rapid.T) Case {
 		// to the limit (not a message: grey zone, kept out of the domain)
 		c.N = 20
 	}
-	c.Probe = rapid.SampledFrom([]string{"n-1", "n", "n+1", "n+1", "2n", "big", "bomb", "fatwire", "okcomp", "lie-short", "lie-long", "lie-max", "small", "flagged-big", "flagged-lie"}).Draw(t, "probe")
+	c.Probe = rapid.SampledFrom([]string{"n-1", "n", "n+1", "n+1", "2n", "big", "bomb", "bomb1", "fatwire", "okcomp", "lie-short", "lie-long", "lie-max", "small", "flagged-big", "flagged-lie"}).Draw(t, "probe")
 	if c.N > 1<<20 {
 		// limits beyond 32 bits: ordinary messages must simply be accepted
 		c.Probe = rapid.SampledFrom([]string{"small", "small", "lie-short"}).Draw(t, "hugeNprobe")
 	}
 	switch c.Probe {
-	case "bomb", "okcomp":
+	case "bomb", "bomb1", "okcomp":
 		c.Encoding = rapid.SampledFrom([]string{"gzip", "deflate", "zlib"}).Draw(t, "encoding")
 	case "fatwire":
 		c.Encoding = rapid.SampledFrom([]string{"toy", "gzip", "zlib"}).Draw(t, "encoding")
@@ -464,7 +464,7 @@ func gen(t *rapid.T) Case {
 
 var spec = pbt.Spec[Case]{
 	Prop: "C09", Name: "limits", Gen: gen, Check: check,
-	Rule: "read limit N (16..64 KiB incl. 511/512/513 and random) on a handler (requests served synchronously) or a client (scripted responses) × 3 protocols × 2 codecs × 4 kinds; 0..3 acceptable messages (sizes N, N−1, N−2, optionally compressed) followed by a probe built to an exact encoded size: N−1, N, N+1, 2N, 8N+100000; compressed with wire ≤ N < decompressed (bomb), compressed with decompressed ≤ N < wire (fat wire), compressed and within N both ways; lying prefixes (declares N with N/2 bytes present; declares 4N+1000 or 2^32−1 with 12 bytes); oversize frames carrying a protocol-specific flag (end-of-stream / trailers); limits at and beyond 2^31/2^32 with ordinary 100-byte messages. Oracle: non-delivery model (nothing over N by either measure reaches the application, everything within N does, earlier messages intact, refusal code ∈ {invalid_argument, resource_exhausted}); non-trivial = the probe could be built for this configuration",
+	Rule: "read limit N (16..64 KiB incl. 511/512/513 and random) on a handler (requests served synchronously) or a client (scripted responses) × 3 protocols × 2 codecs × 4 kinds; 0..3 acceptable messages (sizes N, N−1, N−2, optionally compressed) followed by a probe built to an exact encoded size: N−1, N, N+1, 2N, 8N+100000; compressed with wire ≤ N < decompressed (bomb: 4N+50000, and exactly N+1), compressed with decompressed ≤ N < wire (fat wire), compressed and within N both ways; lying prefixes (declares N with N/2 bytes present; declares 4N+1000 or 2^32−1 with 12 bytes); oversize frames carrying a protocol-specific flag (end-of-stream / trailers); limits at and beyond 2^31/2^32 with ordinary 100-byte messages. Oracle: non-delivery model (nothing over N by either measure reaches the application, everything within N does, earlier messages intact, refusal code ∈ {invalid_argument, resource_exhausted}); non-trivial = the probe could be built for this configuration",
 }
 
 func TestLimits(t *testing.T) { pbt.Run(t, spec) }
